@@ -55,6 +55,7 @@ type cbConfig struct {
 	fine         bool
 	sideEffects  bool
 	slowLogger   bool // the caller's logger is slow: every log call is a point where the scheduler may switch tasks
+	logPanicAt   int  // > 0 (with slowLogger): that log call panics, once
 	fallbackKind int  // 0 plain 503, 1 cbreaker.ResponseFallback, 2 cbreaker.RedirectFallback
 	// neighbour: the process has a second breaker, protecting something else, with periods of its own (or the same
 	// ones), which trips and recovers on its own traffic while the breaker under test is judged
@@ -68,6 +69,9 @@ func (c *countingEffect) Exec() error { c.n++; return nil }
 
 // cbWorld is one breaker under simulation together with everything observed.
 type cbWorld struct {
+	logLeft          int
+	logPanicTask     *simrt.Task
+	logPanicSeq      uint64
 	other            *cbreaker.CircuitBreaker // the neighbour (cfg.neighbour)
 	otherStatus      int
 	otherPokes       int
@@ -154,7 +158,13 @@ func newWorld(r *simkit.Run, cfg cbConfig) *cbWorld {
 	})
 	var logOpt []cbreaker.Option
 	if cfg.slowLogger {
-		logOpt = append(logOpt, cbreaker.Logger(yieldLogger{w.sim}))
+		w.logLeft = cfg.logPanicAt
+		logOpt = append(logOpt, cbreaker.Logger(yieldLogger{sim: w.sim, left: &w.logLeft, onPanic: func() {
+			// the request in whose course the sink broke is lost to its client; the breaker is not excused anything
+			w.logPanicTask = w.sim.Current()
+			w.logPanicSeq = w.sim.Seq
+			w.r.Fault("logger-panic")
+		}}))
 	}
 	opts := []cbreaker.Option{cbreaker.FallbackDuration(cfg.fallback), cbreaker.RecoveryDuration(cfg.recovery), cbreaker.CheckPeriod(cfg.checkPeriod), cbreaker.Fallback(fallback)}
 	if cfg.sideEffects {
@@ -282,7 +292,7 @@ func (w *cbWorld) check() {
 		w.r.Fail("deadlock", "no task can run but %d wait for a lock", len(w.sim.Blocked()))
 	}
 	for _, t := range w.sim.Tasks() {
-		if t.Panic != nil {
+		if t.Panic != nil && t != w.logPanicTask {
 			w.r.Fail("panic", "task %s panicked: %v\n%s", t.Name, t.Panic, t.PanicSite)
 		}
 	}
@@ -385,6 +395,14 @@ func (w *cbWorld) replayModel() modelResult {
 			evs = append(evs, cbEvent{seq: q.decSeq, cmpSeq: rs, t: w.stepTime[q.decSeq], kind: "decision", req: q})
 		}
 	}
+	// The request in whose course the log sink broke, if it reached neither the handler nor the fallback: what the
+	// breaker did with it before it was lost is its own business - nothing, or the transition that was due and a
+	// refusal - and is read off the state it reports once that request has unwound.
+	for _, q := range w.reqs {
+		if q.task == w.logPanicTask && q.outcome == "" && q.done {
+			evs = append(evs, cbEvent{seq: w.logPanicSeq, cmpSeq: q.doneSeq, t: w.stepTime[w.logPanicSeq], kind: "lost", req: q})
+		}
+	}
 	for seq := 1; seq < len(w.obs); seq++ {
 		if w.obs[seq] == stTripped && w.obs[seq-1] != stTripped {
 			evs = append(evs, cbEvent{seq: uint64(seq), cmpSeq: uint64(seq), t: w.stepTime[seq], kind: "trip"})
@@ -414,6 +432,7 @@ func (w *cbWorld) replayModel() modelResult {
 	var until, R time.Duration
 	D := w.cfg.recovery
 	var P, N int64
+	var amb int64 // 1: a lost request may have been counted as refused by the ramp of the current recovery
 	fromRecovering := false
 	add := func(kind, format string, args ...any) {
 		res.violations = append(res.violations, violation{kind, fmt.Sprintf(format, args...)})
@@ -430,6 +449,23 @@ func (w *cbWorld) replayModel() modelResult {
 			until = e.t + w.cfg.fallback
 			res.cycles++
 			goto compare
+		}
+		if e.kind == "lost" {
+			seen := state
+			if int(e.cmpSeq) < len(w.obs) {
+				seen = w.obs[e.cmpSeq]
+			}
+			switch {
+			case state == stTripped && e.t >= until && seen == stRecovering:
+				state, R, P, N, amb = stRecovering, e.t, 0, 0, 1
+				res.recoveries++
+			case state == stRecovering && e.t-R > D && seen == stStandby:
+				state = stStandby
+				res.backToStand++
+			case state == stRecovering && e.t-R <= D:
+				amb = 1
+			}
+			continue
 		}
 		{
 			q := e.req
@@ -462,7 +498,7 @@ func (w *cbWorld) replayModel() modelResult {
 				}
 				// fallback period over: recovery begins with this decision
 				state = stRecovering
-				R, P, N = e.t, 0, 0
+				R, P, N, amb = e.t, 0, 0, 0
 				res.recoveries++
 				fallthrough
 			case stRecovering:
@@ -476,14 +512,39 @@ func (w *cbWorld) replayModel() modelResult {
 					break
 				}
 				// ramp: passing must keep (P+1)/(N+1) strictly below 0.5*el/D
-				lhs := 2 * (P + 1) * int64(D)
-				rhs := int64(el) * (N + 1)
 				res.rampDecided++
-				diff := lhs - rhs
-				if diff < 0 {
-					diff = -diff
+				// The verdict under every admissible reading of a lost request (not counted by the ramp, counted as
+				// refused, counted as passed although it never reached the handler): a violation only if all agree.
+				verdict := func() string {
+					readings := [][2]int64{{0, 0}}
+					if amb > 0 {
+						readings = append(readings, [2]int64{0, 1}, [2]int64{1, 1})
+					}
+					out := ""
+					for i, rd := range readings {
+						lhs := 2 * (P + rd[0] + 1) * int64(D)
+						rhs := int64(el) * (N + rd[1] + 1)
+						diff := lhs - rhs
+						if diff < 0 {
+							diff = -diff
+						}
+						v := ""
+						if diff > lhs/1_000_000_000 {
+							if passed && lhs > rhs {
+								v = "ramp-pass"
+							}
+							if !passed && lhs < rhs {
+								v = "ramp-refuse"
+							}
+						}
+						if i == 0 {
+							out = v
+						} else if v != out {
+							out = ""
+						}
+					}
+					return out
 				}
-				tol := lhs / 1_000_000_000
 				if el == D {
 					res.edgeBoundary++
 					// exactly at the end of the recovery period both readings are acceptable (the period is over: standby;
@@ -492,12 +553,12 @@ func (w *cbWorld) replayModel() modelResult {
 						state = w.obs[e.cmpSeq]
 					}
 					// a breaker that itself says "still recovering" is bound by the ramp at this instant like at any other
-					if state == stRecovering && diff > tol {
-						if passed && lhs > rhs {
+					if state == stRecovering {
+						switch verdict() {
+						case "ramp-pass":
 							add("ramp-pass", "request %d passed at the last instant of a %v recovery (the breaker still reports recovering) with %d passed of %d decided so far: (P+1)/(N+1)=%d/%d is not below 0.5",
 								q.id, D, P, N, P+1, N+1)
-						}
-						if !passed && lhs < rhs {
+						case "ramp-refuse":
 							add("ramp-refuse", "request %d refused at the last instant of a %v recovery (the breaker still reports recovering) with %d passed of %d decided so far: passing it would keep (P+1)/(N+1)=%d/%d below 0.5",
 								q.id, D, P, N, P+1, N+1)
 						}
@@ -511,15 +572,13 @@ func (w *cbWorld) replayModel() modelResult {
 					}
 					break
 				}
-				if diff > tol {
-					if passed && lhs > rhs {
-						add("ramp-pass", "request %d passed at %v into a %v recovery with %d passed of %d decided so far: (P+1)/(N+1)=%d/%d is not below 0.5*elapsed/duration",
-							q.id, el, D, P, N, P+1, N+1)
-					}
-					if !passed && lhs < rhs {
-						add("ramp-refuse", "request %d refused at %v into a %v recovery with %d passed of %d decided so far: passing it would keep (P+1)/(N+1)=%d/%d below the ramp 0.5*elapsed/duration",
-							q.id, el, D, P, N, P+1, N+1)
-					}
+				switch verdict() {
+				case "ramp-pass":
+					add("ramp-pass", "request %d passed at %v into a %v recovery with %d passed of %d decided so far: (P+1)/(N+1)=%d/%d is not below 0.5*elapsed/duration",
+						q.id, el, D, P, N, P+1, N+1)
+				case "ramp-refuse":
+					add("ramp-refuse", "request %d refused at %v into a %v recovery with %d passed of %d decided so far: passing it would keep (P+1)/(N+1)=%d/%d below the ramp 0.5*elapsed/duration",
+						q.id, el, D, P, N, P+1, N+1)
 				}
 				if passed {
 					P++
@@ -563,11 +622,23 @@ func minu(a, b uint64) uint64 {
 }
 
 // yieldLogger is a utils.Logger whose calls take time: each one is a yield point.
-type yieldLogger struct{ sim *simrt.Sim }
+type yieldLogger struct {
+	sim     *simrt.Sim
+	left    *int   // > 0: the call that brings it to zero panics (the log sink breaks once)
+	onPanic func() // told first
+}
 
 // like a real logger it renders its arguments: the breaker logs itself with %v, also while it holds its lock
 func (l yieldLogger) log(f string, a []interface{}) {
 	_ = fmt.Sprintf(f, a...)
+	if l.left != nil && *l.left > 0 {
+		*l.left--
+		if *l.left == 0 {
+			*l.left = -1
+			l.onPanic()
+			panic("simulated: the log sink is broken")
+		}
+	}
 	l.sim.Yield()
 }
 func (l yieldLogger) Debug(f string, a ...interface{}) { l.log(f, a) }
